@@ -1020,9 +1020,9 @@ theorem fk_stepCreated {p : Pool} (h : FK M p) (t : Nat) (tk : PTask) : FK M (p.
     · exact fk_afterWorker h0 _ _
     · exact fk_suspendTask (fk_modTask h0 _ _) _ _
 
-theorem fk_workerNext {p : Pool} (h : FK M p) (t : Nat) : FK M (p.workerNext t) := by
+theorem fk_workerNext {p : Pool} (h : FK M p) (t : Nat) (tk : PTask) : FK M (p.workerNext t tk) := by
   unfold workerNext
-  exact fk_suspendTask (fk_modTask (fk_logEv h _) _ _) _ _
+  exact fk_suspendTask (fk_runHooks (fk_modTask (fk_logEv h _) _ _) _ _) _ _
 
 theorem fk_workerCancelled {p : Pool} (h : FK M p) (t : Nat) (tk : PTask) : FK M (p.workerCancelled t tk) := by
   unfold workerCancelled
@@ -1041,7 +1041,7 @@ theorem fk_stepInWorker {p : Pool} (h : FK M p) (t : Nat) (tk : PTask) : FK M (p
   · exact fk_workerCancelled (fk_modTask h _ _) t tk
   · split
     · split
-      · exact fk_workerNext h t
+      · exact fk_workerNext h t tk
       · exact fk_afterWorker h _ _
     · exact fk_afterWorker h _ _
     · exact h
